@@ -284,6 +284,8 @@ def gen_case(rng, flavour):
         qs.append(f"sjac {a} {b}")
         qs.append(f"ssim {a} {b} {rng.randint(0, 1)} {rng.randint(0, 1)}")
         qs.append(f"scb {a} {b} {rng.randint(0, 1)}")
+        qs.append(f"smc {a} {b} {rng.randint(0, 1)}")
+        qs.append(f"sac {a} {b} {rng.randint(0, 1)}")
     for a in (0, 1):
         qs += [f"sim {a} {a} 0 0", f"sim {a} {a} 1 0", f"cb {a} {a} 0", f"mc {a} {a} 0", f"ac {a} {a} 0",
                f"iu {a} {a}", f"cc {a} {a} 0", f"jac {a} {a} 0"]
@@ -293,6 +295,12 @@ def gen_case(rng, flavour):
     for _ in range(2):
         a, b = rng.choice(pairs)
         qs.append(f"frac {a} {b} {rng.choice(cs_opts)} {rng.randint(0, 1)}")
+    if len(A) + len(B) <= 120:
+        # implementation-only observations of the comparison dataclass (model answers `skip`): intersect_mh,
+        # weighted_intersection, pass_threshold
+        a, b = rng.choice(pairs)
+        tbp = rng.choice([0, 1, len(A) * max(pa["sc"], pb["sc"], 1), rng.randint(0, 50) * max(pa["sc"], pb["sc"], 1)])
+        qs.append(f"@frac {a} {b} {rng.choice(cs_opts)} {rng.randint(0, 1)} {tbp}")
     cn_opts = [0, 0, 1, min(pa["num"], pb["num"]), max(pa["num"], pb["num"]), 3]
     a, b = rng.choice(pairs)
     qs.append(f"numc {a} {b} {rng.choice(cn_opts)} {rng.randint(0, 1)}")
@@ -343,7 +351,7 @@ def gen_case(rng, flavour):
 # --------------------------------------------------------------------------
 # property oracle (from the statement of C05)
 
-SYMMETRIC = {"cc", "iu", "jac", "sim", "ssim", "sjac", "ang", "mc", "ac", "compat"}
+SYMMETRIC = {"cc", "iu", "jac", "sim", "ssim", "sjac", "ang", "mc", "smc", "ac", "sac", "compat"}
 BUILD_OPS = {"newm", "new", "addmany", "addab", "setab", "copy", "down", "downnum", "flat", "show"}
 SIG_DS = "C05:containment-downsample-flag-keeps-undownsampled-size"
 SIG_ANG_SELF = "C05:angular-self-not-1"
@@ -467,7 +475,12 @@ def oracle(case, impl):
                 if r in S:
                     S[r].upd(st)
             continue
-        if obs == "bad-op" or len(a) < 2 or o in ("fsqrt", "fcos"):
+        for kind in ("view-mismatch", "unstable", "operand-changed", "history-mismatch"):
+            if obs.startswith(kind):
+                flag(idx, "C05:periphery:" + kind, "two routes to the same quantity disagree / a read-only call is not "
+                     "repeatable / an operand or an earlier result changed: " + obs[:300])
+        if obs == "bad-op" or len(a) < 2 or o in ("fsqrt", "fcos") or obs.split(" ")[0] in (
+                "view-mismatch", "unstable", "operand-changed", "history-mismatch"):
             continue
         try:
             A, B = S[int(a[0])], S[int(a[1])]
@@ -478,7 +491,7 @@ def oracle(case, impl):
         flags = tuple(a[2:])
         answers[(o, a[0], a[1], flags)] = (idx, obs)
         ds = False
-        if o in ("cc", "jac", "cb", "scb", "mc", "ac"):
+        if o in ("cc", "jac", "cb", "scb", "mc", "smc", "ac", "sac"):
             ds = a[2] == "1"
         elif o in ("sim", "ssim"):
             ds = a[3] == "1"
@@ -489,10 +502,10 @@ def oracle(case, impl):
                 flag(idx, "C05:is_compatible", f"is_compatible answered {obs} but same k/molecule/seed/max_hash is {exp}")
             continue
         if listed_incompatible(A, B) or (A.mh != B.mh and not (ds and A.mh and B.mh)
-                                         and o not in ("frac", "numc")):
+                                         and o not in ("frac", "numc", "@frac")):
             if not is_err:
-                if o in ("cb", "scb", "mc", "ac") and val == "0p0" and \
-                        (len(A.mins) == 0 or (o == "mc" and len(B.mins) == 0)):
+                if o in ("cb", "scb", "mc", "smc", "ac", "sac") and val == "0p0" and \
+                        (len(A.mins) == 0 or (o in ("mc", "smc") and len(B.mins) == 0)):
                     flag(idx, SIG_EMPTY, f"incompatible sketches (k {A.k}/{B.k}, molecule {A.hf}/{B.hf}, seed {A.seed}/{B.seed}, "
                                          f"num {A.num}/{B.num}, max_hash {A.mh}/{B.mh}) were answered {obs} instead of refused (one operand is empty)")
                 else:
@@ -504,6 +517,9 @@ def oracle(case, impl):
         # ---- compatible, possibly after the implicit downsample ---------------
         if o in ("frac", "numc"):
             _oracle_dataclass(o, a, A, B, obs, idx, flag)
+            continue
+        if o == "@frac":
+            _oracle_frac_extra(a, A, B, obs, idx, flag)
             continue
         if ds and A.mh != B.mh:
             M = min(A.mh, B.mh)
@@ -564,7 +580,7 @@ def oracle(case, impl):
                 exp = (c / u) if u else 0.0
                 if fcanon(v) != fcanon(exp):
                     flag(idx, "C05:jaccard-value:" + o, f"answered {float(v)!r}; |A∩B|/|A∪B| = {c}/{u} = {exp!r}")
-        elif o in ("cb", "scb", "mc", "ac"):
+        elif o in ("cb", "scb", "mc", "smc", "ac", "sac"):
             if A.num or B.num:
                 if not is_err:
                     flag(idx, "C05:containment-on-num", f"answered {obs} for num sketches")
@@ -578,7 +594,7 @@ def oracle(case, impl):
             scB = max(A.sc, B.sc) if differing else B.sc
             if o in ("cb", "scb"):
                 m = _check_cont(v, len(common), len(sA), scA)
-            elif o == "mc":
+            elif o in ("mc", "smc"):
                 m = _check_cont(v, len(common), min(len(sA), len(sB)), scA)
             else:
                 m = None
@@ -654,7 +670,7 @@ def oracle(case, impl):
             ang = o == "ang" or (o in ("sim", "ssim") and flags[0] == "0" and A.tr and B.tr)
             ok = ang and abs(f1 - f2) <= RTOL
         if not ok:
-            dsf = (o in ("mc", "ac") and flags and flags[0] == "1" and A.mh != B.mh)
+            dsf = (o in ("mc", "smc", "ac", "sac") and flags and flags[0] == "1" and A.mh != B.mh)
             bad.append((max(idx, other[0]), SIG_DS if dsf else "C05:asymmetric:" + o,
                         f"`{case[idx]}` answered {o1} but `{case[other[0]]}` answered {o2}"))
     bad.sort(key=lambda t: t[0])
@@ -756,6 +772,44 @@ def _oracle_dataclass(o, a, A, B, obs, idx, flag):
                 flag(idx, osig("C05:angular-value"), f"field an={v!r} outside [{r[1]!r}, {r[2]!r}]")
 
 
+def _oracle_frac_extra(a, A, B, obs, idx, flag):
+    """`@frac a b cs ia threshold_bp`: intersect_mh, weighted_intersection(from_mh=mh1), pass_threshold"""
+    if A.num or B.num or not obs.startswith("ok "):
+        return            # refusal cases are judged on the modelled `frac` op
+    cs = int(a[2]) or max(A.sc, B.sc)
+    if cs < max(A.sc, B.sc):
+        return
+    if cs == A.sc:
+        M = A.mh
+    elif cs == B.sc:
+        M = B.mh
+    else:
+        M = mh_py(cs)
+        if any(abs(h - M) <= 3 for h in A.mins + B.mins):
+            return
+    A2, B2 = A.restrict(M), B.restrict(M)
+    common = sorted(set(A2.mins) & set(B2.mins))
+    d = _kv(obs)
+    exp_im = ",".join(map(str, common))
+    if d.get("im") != exp_im or d.get("imtr") != "0":
+        flag(idx, "C05:frac-intersect_mh", f"intersect_mh holds {d.get('im')} (track_abundance {d.get('imtr')}); "
+                                          f"the common hashes at cmp_scaled {cs} are {exp_im}, flat")
+    exp_pt = int(len(common) * cs >= int(a[4]))
+    if d.get("pt") != str(exp_pt):
+        flag(idx, "C05:frac-pass_threshold", f"pass_threshold {d.get('pt')}; |A∩B|*cmp_scaled = {len(common) * cs} vs threshold_bp {a[4]}")
+    # abundances are taken from the ORIGINAL mh1 (not flattened, not downsampled); hashes without one count 1
+    if A.tr and A.mins:
+        ab = A.abund()
+        exp_wi = ",".join(f"{h}:{ab.get(h, 1)}" for h in common)
+        exp_tr = "1"
+    else:
+        exp_wi = ",".join(f"{h}:1" for h in common)
+        exp_tr = "0"
+    if d.get("wi") != exp_wi or d.get("witr") != exp_tr:
+        flag(idx, "C05:frac-weighted_intersection", f"weighted_intersection(from_mh=mh1) = {d.get('wi')} (track {d.get('witr')}); "
+                                                   f"expected the common hashes with mh1's abundances: {exp_wi} (track {exp_tr})")
+
+
 def nontrivial(case, impl):
     """both sketches built, at least one non-empty, and >= 3 comparison ops answered with a value"""
     nonempty = 0
@@ -769,3 +823,75 @@ def nontrivial(case, impl):
         elif obs.startswith("ok "):
             answered += 1
     return nonempty >= 1 and answered >= 3
+
+
+# --------------------------------------------------------------------------
+# Rust-level twin cases (KmerMinHash AND KmerMinHashBTree through the rust-harness `twin` module)
+
+def gen_rust_case(rng):
+    """two sketches in the op syntax shared by the rust-harness `twin` module and the Lean `cmp` driver, then every
+    Rust-level comparison entry point in both orders"""
+    lines = []
+    is_num = rng.random() < 0.25
+    k, seed = 21, 42
+    sca = 0 if is_num else rng.choice(SCALED_POOL)
+    scb = sca
+    numa = rng.choice(NUM_POOL) if is_num else 0
+    numb = numa
+    kb, seedb = k, seed
+    r = rng.random()
+    if r < 0.35 and not is_num:
+        scb = rng.choice([x for x in SCALED_POOL if x != sca])
+    elif r < 0.42:
+        kb = 31
+    elif r < 0.49:
+        seedb = 43
+    elif r < 0.55 and is_num:
+        numb = rng.choice([n for n in NUM_POOL if n != numa])
+    tra = rng.random() < 0.6
+    trb = tra if rng.random() < 0.75 else (not tra)
+    lines.append(f"new 0 {numa} {sca} {int(tra)} {k} {seed}")
+    lines.append(f"new 1 {numb} {scb} {int(trb)} {kb} {seedb}")
+    M = min(mh_py(sca) or U64, mh_py(scb) or U64)
+    n = rng.choice([0, 1, 2, 3, 5, 8, 13, 30, 60])
+    universe = list(range(0, 3 * n + 10)) + [M - 5, M // 2, M // 3]
+    universe = [h for h in universe if 0 <= h <= M - 4 or M == U64 and 0 <= h <= U64]
+    big = rng.random() < 0.05
+    pool = ABUND_POOL + ([2 ** 32, 2 ** 32 - 1, 2 ** 63, 2 ** 64 - 1] if big else [])
+    for h, tr in ((0, tra), (1, trb)):
+        hs = rng.sample(universe, min(len(universe), rng.randint(0, n)))
+        if rng.random() < 0.2 and h == 1:
+            hs = []
+        if tr:
+            for x in hs:
+                lines.append(f"addab {h} {x} {rng.choice(pool)}")
+        elif hs:
+            lines.append(f"addmany {h} " + " ".join(map(str, hs + hs[:2])))
+    for a, b in ((0, 1), (1, 0), (0, 0), (1, 1)):
+        for ia in (0, 1):
+            for ds in (0, 1):
+                lines.append(f"rsim {a} {b} {ia} {ds}")
+        lines += [f"rjac {a} {b}", f"rang {a} {b}", f"cc {a} {b} 0", f"cc {a} {b} 1", f"isz {a} {b}"]
+    return lines
+
+
+def rust_norm(line):
+    """one half of a twin observation -> the text the Lean `cmp` driver prints"""
+    w = line.split()
+    if not w:
+        return line
+    if w[0] == "f":
+        if w[1] == "err":
+            return "err"
+        bits = int(w[1])
+        import struct
+        x = struct.unpack("<d", struct.pack("<Q", bits))[0]
+        if x != x:
+            return "ok nan"
+        if x < 0:
+            return "ok neg"
+        return "ok " + fcanon(x)
+    if w[0] in ("cc", "isz"):
+        return "err" if w[1] == "err" else "ok " + " ".join(w[1:])
+    return line
+
